@@ -115,7 +115,7 @@ func bodyBound(layout []int) int {
 		// instead of 11 pairs); the longer bodies go to the single-field layouts
 		return sx.Param("maxBodyMulti", 12)
 	}
-	return sx.Param("maxBody", 16)
+	return sx.Param("maxBody", 14)
 }
 
 const tplID = 300
